@@ -390,8 +390,32 @@ Section Rep.
   Proof. intro H. cbn [rep_copy]. now rewrite H. Qed.
 End Rep.
 
+Lemma late_runs_ext {State} code copy w n (k1 k2 : State -> outcome State) :
+  (forall s, k1 s = k2 s) -> forall st, late_runs code copy w n k1 st = late_runs code copy w n k2 st.
+Proof.
+  intros H. induction n as [|n IH]; intro st; [reflexivity|].
+  cbn [late_runs]. rewrite H. destruct (k2 st) as [[t s] r]. now rewrite IH.
+Qed.
+
+Lemma keep_wrapper_ext {State} code w n copy (k1 k2 : State -> outcome State) :
+  (forall s, k1 s = k2 s) -> forall st, keep_wrapper code w n copy k1 st = keep_wrapper code w n copy k2 st.
+Proof. intros H st. unfold keep_wrapper. now rewrite H, (late_runs_ext code copy w n k1 k2 H). Qed.
+
+(** every late run on a copy of the snapshot repeats the in-place sub-trace *)
+Lemma late_runs_copy {State} code w n (k : State -> outcome State) st t s r :
+  k st = (t, s, r) ->
+  late_runs code true w n k st = repeat_app (t ++ [EWrap w (2 + code s); EWrap w (3000 + errc r)]) n.
+Proof.
+  intro H. induction n as [|n IH]; [reflexivity|].
+  cbn [late_runs repeat_app]. rewrite H, IH. now rewrite <- app_assoc.
+Qed.
+
 Lemma harness_env_ext : wrappers_extensional harness_env.
-Proof. intros w k1 k2 H st. cbn. unfold h_wrap. now apply rep_wrapper_ext. Qed.
+Proof.
+  intros w k1 k2 H st. cbn. unfold h_wrap. destruct (18 <=? w).
+  - now apply keep_wrapper_ext.
+  - now apply rep_wrapper_ext.
+Qed.
 
 (** ** reuse of the continuation, on the walker *)
 Section Reuse.
@@ -421,6 +445,22 @@ Section Reuse.
     intros Hw Hm H1 H2. rewrite (walker_wrap State E ms rest stack st tm Hm w), Hw.
     unfold rep_wrapper. cbn [rep_same]. rewrite H1. cbn [pre]. rewrite H2. cbn [pre].
     rewrite app_nil_r, <- !app_assoc. reflexivity.
+  Qed.
+
+  (** A wrapper inside any nesting of jumps that keeps its continuation: every
+      late run on a copy of the context it kept executes exactly what the
+      in-place run executes — the remaining rules and the pending jump
+      returns ([stack]) as they were when the continuation was made. *)
+  Lemma continuation_reusable_later code w n ms rest stack st tm t s r :
+    (forall k st, wrap_o E w k st = keep_wrapper code w n true k st) ->
+    match_loop E ms st = (tm, VTrue) ->
+    exec_walker E (rest, stack) st = (t, s, r) ->
+    exec_walker E (RCons (Rule ms (Wrap w)) rest, stack) st
+    = (tm ++ EWrap w 0 :: repeat_app (t ++ [EWrap w (2 + code s); EWrap w (3000 + errc r)]) n
+          ++ t ++ match r with None => [EWrap w 1] | Some _ => [] end, s, r).
+  Proof.
+    intros Hw Hm Hk. rewrite (walker_wrap State E ms rest stack st tm Hm w), Hw.
+    unfold keep_wrapper. rewrite Hk, (late_runs_copy code w n _ st t s r Hk). reflexivity.
   Qed.
 End Reuse.
 
